@@ -289,7 +289,7 @@ def declare(reg):
                  note="frame: the committed row's UID state and flag rows (ghost g_db_*) and the in-memory state are untouched")
     reg.contract("<stdlib>", "MH.keys", params={"self": "ref:MH"}, ret="list[int]",
                  ensures={"asc": "asc(result)", "all": "elems(result) == self.g_keys", "count": "len(result) == card(self.g_keys)", "pos": "forall(lambda j: implies(0 <= j and j < len(result), result[j] >= 1))"},
-                 **T, note="A-MH: mailbox.MH.keys() lists the message files in ascending order")
+                 **T, note="A-MH: MH.keys() lists the message files in ascending order (since fix F55 through asimap.mh.MH.iterkeys, which skips sub-folders with all-digit names; os.scandir is trusted)")
     reg.contract(P, "Mailbox.get_sequences_from_folder", params={"self": "ref:Mailbox"}, ret="defaultdict[str,set[int]]",
                  ensures={"disk": "forall(lambda s, k: mem(result, s, k) == mem(self.mailbox.g_seqs, s, k), 'str', 'int')",
                           "existing-only": "forall(lambda s, k: implies(mem(result, s, k), k in self.mailbox.g_keys), 'str', 'int')"},
@@ -849,3 +849,5 @@ def declare_rename_folder(reg):
     )
     reg.properties.setdefault("C17", {}).setdefault("bounded", []).append(
         {"name": "rename-then-create-again", "module": "harness.namespace", "func": "RenameThenCreate"})
+    reg.properties.setdefault("C17", {}).setdefault("bounded", []).append(
+        {"name": "digit-level-names", "module": "harness.namespace", "func": "DigitComponent"})
